@@ -4,6 +4,7 @@ the deterministic scheduler, seeded MCU jitter, loss-free medium, first-packet c
 pair of seeded parent-closed topologies and message length class one write() is made at quiescence; delivery exactly
 once / no bystander / return value / frame size are decided per window, the listening state (C07) at every return."""
 import random
+import re
 from concurrent.futures import ProcessPoolExecutor
 
 from harness import tlc, net
@@ -128,6 +129,46 @@ def build(chk):
     return chunks
 
 
+def dispatch_vectors(args):
+    """one node of every role and level meets single frames of every destination class (checks/c15.py's injector)"""
+    from checks import c15
+    role, level, seed, types, lens = args
+    return [v for v in c15.work((role, level, seed, types, lens, [])) if v["k"] == "inj"]
+
+
+def dispatch_phase(chk):
+    """single-frame dispatch conformance: NetDispatch!Outcome (TLA+) vs what a real node of every role / level does with one
+    received frame: queued or not, forwarded where and how, NETWORK_ACK owed or not, relayed or not"""
+    from checks import c15
+    quick = chk.tier == "quick"
+    types = [0, 1, 64, 65, 100, 127, 128, 129, 130, 131, 191, 192, 193, 194, 195, 196, 197, 198, 255] if quick else list(range(256))
+    lens = [0, 24] if quick else [0, 1, 23, 24]
+    jobs = [(role, level, chk.seed * 53 + i, types, lens) for i, (role, level) in enumerate(
+        (r, l) for r in c15.ROLES for l in range(5) if not (r == "master" and l))]
+    with ProcessPoolExecutor(16) as ex:
+        vec = [v for res in ex.map(dispatch_vectors, jobs) for v in res]
+    for v in vec:
+        v["sent"] = v.pop("sent_full")
+        chk.case(("dispatch", v["role"], v["level"], tuple(v["raw"][:8]), len(v["raw"]), v["cfg"]["relay"]))
+    chk.traces += len(vec)
+    verdicts, st = tlc.validate("TraceDispatch", "TraceDispatch", jsonable(vec), shard=2000, quiet=True, timeout=2400)
+    chk.add_stats(st, "single-frame dispatch vectors judged against NetDispatch!Outcome")
+    chk.phase("dispatch")
+    seen, drift = {}, {}
+    for v, vd in zip(vec, verdicts):
+        if vd["clause"] == "ok":
+            continue
+        typ = v["raw"][6] if len(v["raw"]) > 6 else -1
+        key = "%s:dispatch:%s:level%d:type%s:%s" % (vd["clause"], v["role"], v["level"], typ if typ > 127 else "user", re.sub(r"\d+", "N", vd["detail"]))
+        (drift if vd["clause"] == "drift" else seen).setdefault(key, (v, vd))
+    for key, (v, vd) in seen.items():
+        chk.violation(vd["clause"], key, dict(kind="dispatch", vector={k: x for k, x in v.items()}), vd["detail"])
+    chk.extra["dispatch_vectors"] = len(vec)
+    chk.extra["dispatch_model_drift"] = sorted(drift)[:40]
+    for key in sorted(drift)[:10]:
+        chk.note("model drift (system traffic, not a listed clause): " + key)
+
+
 def run(chk):
     chk.rule = ("seeded parent-closed topologies up to depth 4 (6-14 nodes, some interior nodes routing-only), every ordered "
                 "pair of full nodes x message lengths from {0,1,23,24,25,47,48,49,72,143,144} (thorough: all; plus every "
@@ -180,5 +221,6 @@ def run(chk):
         wit, v = items[0]
         wit["count"] = len(items)
         chk.violation(v["clause"], key, wit, "%s [%d window(s)]" % (v["detail"], len(items)))
+    dispatch_phase(chk)
     chk.assumptions += ["loss-free medium; a receiver locked onto one packet misses packets addressed to it that start meanwhile; a transmitting radio hears nothing",
                         "quiescence: every node idle, every radio in RX, air silent for 300 ms before the next write()"]
